@@ -115,11 +115,14 @@ def make_jobs(ctx):
     return jobs
 
 # ------------------------------------------------------------------ running the driver
-def run_driver(exe, jobs, timeout):
-    """-> (text_by_job {id: [lines]}, crashes [(jobid, key, raw)])"""
+MAX_DEATHS = 6      # dead driver processes tolerated per build; each death is a reported finding, the jobs behind the last one are not run
+def run_driver(exe, jobs, timeout, wd_cpu=600):
+    """-> (text_by_job {id: [lines]}, crashes [(jobid, key, raw)], ids of the jobs not run after MAX_DEATHS deaths)
+    A job that does not end within wd_cpu seconds of CPU time (6 x wd_cpu of wall clock) is killed by the driver's watchdog
+    (FAULT sig=14) and is a crash like any other: a check must end with a verdict in bounded time."""
     env = dict(os.environ)
     env.update({"ASAN_OPTIONS": "detect_leaks=0:abort_on_error=0:detect_stack_use_after_return=1",
-                "UBSAN_OPTIONS": "print_stacktrace=1:halt_on_error=1"})
+                "UBSAN_OPTIONS": "print_stacktrace=1:halt_on_error=1", "CIPHER_DRV_WD_CPU": str(wd_cpu)})
     ids = list(jobs)
     res = {}; crashes = []
     i = 0
@@ -141,14 +144,15 @@ def run_driver(exe, jobs, timeout):
             break
         if i + k >= len(ids):
             raise common.Infra("driver exited rc=%s after finishing all jobs:\n%s" % (rc, out[-1500:]))
-        if rc == 124:
-            raise common.Infra("driver timeout (%ss) in job %s" % (timeout, ids[i + k]))
+        if rc == 124:       # the code under test used up the whole run's time inside this job: a verdict about it, and the end of this build's run
+            crashes.append((ids[i + k], ("timeout", "", "", "no answer within %ss" % timeout), out[-3000:]))
+            return res, crashes, ids[i + k + 1:]
         key = common.san_key(out) or ("exit-%s" % rc, "", "", out[-300:])
         crashes.append((ids[i + k], key, out[-3000:]))
         i = i + k + 1
-        if len(crashes) > 50:
-            raise common.Infra("too many driver crashes; last:\n" + out[-2000:])
-    return res, crashes
+        if len(crashes) >= MAX_DEATHS:
+            return res, crashes, ids[i:]
+    return res, crashes, []
 
 def kvs(parts):
     return dict(p.split("=", 1) for p in parts if "=" in p)
@@ -330,11 +334,14 @@ def run(ctx):
     lock = threading.Lock()
     def one(b_exe):
         b, exe = b_exe
-        res, cr = run_driver(exe, jobs, 900 if ctx.quick else 2400)
+        res, cr, notrun = run_driver(exe, jobs, 900 if ctx.quick else 2400, wd_cpu=(30 if ctx.quick else 600))
         with lock:
             corpus.absorb(bname(b), jobs, res)
+            if notrun:
+                cut_builds.add(bname(b)); ctx.add(jobs_not_run_after_repeated_driver_deaths=len(notrun))
+                ctx.log("build %s: %d dead driver processes, %d of %d jobs not run" % (bname(b), len(cr), len(notrun), len(jobs)))
         return b, cr
-    crashes = []
+    crashes = []; cut_builds = set()
     for b, cr in pool.map(one, exes):
         crashes += [(bname(b),) + c for c in cr]
     ctx.log("drivers done: %d executions folded into %d chacha + %d mixed + %d gost records, %d distinct ctx traces"
@@ -455,7 +462,7 @@ def run(ctx):
     for b, _ in exes:
         bn = bname(b); ln = corpus.self.get(bn)
         if ln is None:
-            if not any(c[1] == "self" for c in crashes): raise common.Infra("no self-test line from build " + bn)
+            if not any(c[1] == "self" for c in crashes) and bn not in cut_builds: raise common.Infra("no self-test line from build " + bn)
             continue
         f = kvs(ln.split())
         for fn in ("chacha_self_test", "gost28147_self_test"):
